@@ -188,6 +188,24 @@ pub fn c02_cases(thorough: bool, seed: u64) -> Vec<(Shape, ErrPlan)> {
         let e = all_errors(&s);
         v.push((s, e));
     }
+    // literal coefficient patterns (absent, 0, 1, -1, small, symbolic; constants 1 / -1 / 0) with every error symbolic:
+    // a zero coefficient in front of further terms, unit coefficients, repeated variables
+    for (k, (p1, p2)) in [
+        (vec![Commit, Commit, AllocMul, Mul, Con, Con, ConCommitted], vec![vec![Chal, Con]]),
+        (vec![Commit, AllocMul, Alloc, Alloc, Con, Con, Con, Con], vec![]),
+        (vec![Commit, Commit, Commit, ConCommitted, ConCommitted, AllocMul, Con], vec![vec![Chal, AllocMul, Con, Con]]),
+    ]
+    .into_iter()
+    .enumerate()
+    {
+        for rep in 0..2u64 {
+            let refs: Vec<&[Op]> = p2.iter().map(|v| v.as_slice()).collect();
+            let mut s = Shape::new(&format!("all_errors_mixed_literals_{}_{}", k, rep), &p1, &refs);
+            s.coef = Coef::Mixed(seed.wrapping_mul(31).wrapping_add(100 + 10 * k as u64 + rep));
+            let e = all_errors(&s);
+            v.push((s, e));
+        }
+    }
     if thorough {
         for s in c01_shapes(true, seed) {
             let (a, b) = s.gates();
